@@ -55,6 +55,7 @@ def run(pid, tier, replay, scenarios_fn, rule, assumptions, level="model_checkin
         "behaviour_observed_in_validated_traces": camp.happened,
         "trace_validation_states": camp.tlc_states,
         "aborts_of_code_under_test_observed": camp.aborts,
+        "concurrent_schedules_executed": getattr(camp, "conc_schedules", 0),
         "tags_of_other_properties": {"%s.%s" % k: v for k, v in others.items()},
         "known_findings_hit": verdict.known_hits,
         "samples": camp.samples[:3] if camp.samples else [{"scenario": scenarios[0]["name"], "ops": scenarios[0]["ops"][:8]}],
